@@ -120,6 +120,61 @@ class SeqV(V):
         self.t, self.wrap, self.unwrap, self.pykind, self.ident = t, wrap, unwrap, pykind, ident
 
 
+class SymListV(V):
+    """Mutable list of symbolic length: heap[ref] holds a z3 Seq term (elements of one kind)."""
+    kind = "symlist"
+
+    def __init__(self, ref, wrap, unwrap):
+        self.ref, self.wrap, self.unwrap = ref, wrap, unwrap
+
+    def seq(self, st):
+        return st.heap[self.ref][0]
+
+    def truth(self, E, st):
+        import z3 as _z
+        return _z.Length(self.seq(st)) > 0
+
+    def length(self, E, st):
+        import z3 as _z
+        return _z.Length(self.seq(st))
+
+    def iter_view(self, E, st):
+        import z3 as _z
+        t = self.seq(st)          # snapshot: iteration over the value at loop entry
+        return _z.Length(t), (lambda i: self.wrap(t[i]))
+
+    def contains(self, E, item, st, fx):
+        import z3 as _z
+        from .state import Ev
+        return [Ev(st, BoolV(_z.Contains(self.seq(st), _z.Unit(self.unwrap(item)))))]
+
+    def call_method(self, E, name, st, args, kwargs, fx, site):
+        import z3 as _z
+        from .state import Ev, ExcV as _E
+        t = self.seq(st)
+        if name == "append":
+            st.heap[self.ref][0] = _z.Concat(t, _z.Unit(self.unwrap(args[0])))
+            st.ghost.setdefault("writes", []).append((self.ref, "append"))
+            return [Ev(st, NONE)]
+        if name == "remove":
+            x = _z.Unit(self.unwrap(args[0]))
+            out = []
+            for b, present in E.branch(st, _z.Contains(t, x)):
+                if not present:
+                    out.append(Ev(b, exc=ExcV("ValueError", [StrV("list.remove(x): x not in list")])))
+                    continue
+                # first occurrence: t == a ++ [x] ++ c with x not in a
+                a = _z.Const(fresh_name("rm_pre"), t.sort())
+                c = _z.Const(fresh_name("rm_post"), t.sort())
+                b.assume(t == _z.Concat(a, x, c), _z.Not(_z.Contains(a, x)))
+                b.heap[self.ref][0] = _z.Concat(a, c)
+                b.ghost.setdefault("writes", []).append((self.ref, "remove"))
+                out.append(Ev(b, NONE))
+            return out
+        from .state import OutOfReach
+        raise OutOfReach("symbolic list method " + name)
+
+
 class DictV(V):
     """Mutable dict with statically known entries (insertion ordered); contents in the heap
     as a python list of (keyV, valueV)."""
